@@ -306,6 +306,14 @@ HANDMADE = [
                                   "2": {"k": "in", "n": "x", "br": [{"k": "ret", "e": "acc", "c": 0}]},
                                   "3": {"k": "ln", "n": "2", "br": [{"k": "in", "n": "y", "br": [{"k": "ret", "e": "acc", "c": 0}]}]}}}},
      "unknown": ["z"], "request": ["a"], "fieldNames": []},
+    # a form first needed for an input only and then for a line (or the other way round, depending on the order):
+    # its required line must be computed either way
+    {"catalogue": {"a": {"instances": None, "inputs": [], "req": ["1", "2"], "opt": [],
+                         "body": {"1": {"k": "in", "n": "b.x", "br": [{"k": "ret", "e": "acc", "c": 0}]},
+                                  "2": {"k": "ln", "n": "b.1", "br": [{"k": "ret", "e": "acc", "c": 0}]}}},
+                   "b": {"instances": None, "inputs": ["x"], "req": ["2"], "opt": ["1"],
+                         "body": {"1": {"k": "ret", "e": "const", "c": 1}, "2": {"k": "ret", "e": "const", "c": 0}}}},
+     "unknown": ["z"], "request": ["a"], "fieldNames": []},
     # the same form requested twice
     {"catalogue": {"a": {"instances": None, "inputs": ["x"], "req": ["1"], "opt": [],
                          "body": {"1": {"k": "in", "n": "x", "br": [{"k": "ret", "e": "acc", "c": 0}]}}}},
